@@ -31,6 +31,7 @@ TOLERANCES = {"mie-scatmat": 2e-5,          # [3.7e-7]
               "mie-field-z": 1e-4,          # [1.6e-6]
               "ms-vs-mie-default": 2e-2,    # [see evidence] of the peak field
               "ms-vs-mie-tight": 3e-4,      # [8.8e-6]
+              "ms-vs-mie-shell": 3e-5,      # [1.1e-6]
               "msm": 1e-9,                  # [2.5e-11]
               "layered-canon": 1e-8,        # [8.1e-11]
               "layered-vs-textbook": 3e-5}  # [7.4e-7]
@@ -59,7 +60,7 @@ LAY_PATTERNS = [[0.2, 0.35, 0.5, 0.65], [0.05, 0.3, 0.32, 0.9]]
 
 def _krs(x):
     ks = []
-    for v in (1.5 * x + 1, 3 * x + 10, 1e3, 1e4):
+    for v in (1.5 * x + 1, 3 * x + 10, 1e3, 1e4, 1e5):
         if v > x * 1.01 and all(abs(v - u) > 1e-9 for u in ks):
             ks.append(v)
     return ks
@@ -101,6 +102,18 @@ def cases(tier, seed):
     reqs.append(mie_ref.req_homog(1.2, 22.0))
     out.append({"id": "ms:m=1.2:x=22.0", "kind": "ms", "m": [1.2, 0.0],
                 "x": 22.0})
+    # sizes on a narrow resonance of one partial wave of order n > x + 1
+    # (committed table, tools/gen_resonances.py): a series that is ended by
+    # a "the terms have become small" rule loses exactly that wave.  Quick:
+    # the two narrowest and the widest per index; thorough: all of them
+    from oracles import resonances
+    for m, rows in sorted(resonances.table().items()):
+        rows = [r for r in rows if r[0] <= 15.0]
+        if tier == "quick":
+            rows = rows[:2] + rows[-1:]
+        for x, kind, n, w in rows:
+            out.append({"id": "ms-res:m=%.4f:x=%r:%s%d" % (m, x, kind, n),
+                        "kind": "ms", "m": [m, 0.0], "x": x})
     for seq in _lay_seqs(tier):
         for ip, pat in enumerate(LAY_PATTERNS):
             if tier == "quick" and ip == 1 and len(seq) > 2:
@@ -351,6 +364,22 @@ def _run_ms(case, ck):
                     else:
                         scale = (mag + 1e-2 * mag.max())[:, None]
                     e = float((abs(f - g) / scale).max())
+                    if label == "tight":
+                        # ... and every distance shell against its own
+                        # largest field (a far shell is 1e-3 of the nearest)
+                        nsh = len(THETA) * len(PHI)
+                        for j, kr in enumerate(_krs(x)):
+                            sl = slice(j * nsh, (j + 1) * nsh)
+                            es = float(abs(f[sl] - g[sl]).max() /
+                                       mag[sl].max())
+                            ck.metric("ms-vs-mie-shell", es)
+                            ck.true("ms-vs-mie-shell", es <=
+                                    TOL["ms-vs-mie-shell"],
+                                    "Multisphere(tight, meth=%d, radial=%s) "
+                                    "one-sphere cluster differs from Mie by "
+                                    "%.2e of the largest field at kr = %g "
+                                    "(m=%r x=%r pol=%g)" %
+                                    (meth, rad, es, kr, m, x, pa))
                     ck.metric("ms-vs-mie-" + label, e)
                     ck.true("ms-vs-mie-" + label, e <= tol,
                             "Multisphere(%s, meth=%d, radial=%s) one-sphere "
